@@ -42,6 +42,10 @@ FLOORS = {"quick": {"evaluations": 2500, "distinct_nontrivial": 1200, "counters"
                     "max_skipped_fraction": 0.35},
           "thorough": {"evaluations": 40000, "distinct_nontrivial": 20000, "counters": {"compared": 35000},
                        "max_skipped_fraction": 0.35}}
+# sibling facet (vf/mon/siblings.py): ~45 % of the smallest count of the five quick seeds on the unchanged tree; thorough =
+# quick floor x (thorough / quick stream size) x 0.6.  A run in which the facet never executed is INCONCLUSIVE.
+FLOORS["quick"]["counters"].update({"siblings_built": 2000, "siblings_computed_together": 290, "siblings_with_different_values": 210})
+FLOORS["thorough"]["counters"].update({"siblings_built": 10000, "siblings_computed_together": 1450, "siblings_with_different_values": 1050})
 EXHAUSTIVE_SPACE = "all chunkings of both operands for shapes (3,)+(3,), (2,3)+(2,3), (1,3)+(2,1) under add and less-than"
 CLAIM = ("Every generated elementwise/broadcast expression was computed by the real dask.array and compared with NumPy on "
          "the same data (shape, dtype, values with NaN==NaN) and with its own lazy metadata; held = no mismatch and no "
